@@ -52,3 +52,9 @@ pub fn taint_control(buf: &[u8], out: &mut Vec<u8>) {
 pub fn stridx_control(s: &str, a: usize, b: usize) -> &str {
     &s[a..b]
 }
+
+/// STRIDX.inclusive control: inclusive byte range ending at the START offset of the last character.
+pub fn stridx_inclusive_control(s: &str, n: usize) -> &str {
+    let last = s.char_indices().take(n).map(|(i, _)| i).last().unwrap_or_default();
+    &s[..=last]
+}
